@@ -82,6 +82,12 @@ class RuleChecker:
                 path_str, rel_path, fp_config["directories"]
             )
             violations.extend(dir_violations)
+            # Directory overrides global: a file covered by a directory rule is judged by it alone
+            dir_rule, _ = self.directory_matcher.find_matching_rule(
+                path_str, fp_config["directories"]
+            )
+            if dir_rule is not None:
+                return violations
 
         with suppress(KeyError):
             deny_violations = self._check_global_deny(path_str, rel_path, fp_config["global_deny"])
